@@ -94,6 +94,7 @@ func (j *jsonStreamer) delimit(doer px.Doer) {
 	default: // Element
 		assertOk(j.out.Write([]byte{','}))
 		doer()
+		j.state = afterElement
 	}
 }
 
